@@ -809,6 +809,10 @@ package multiplex
 //@ func (*LimitedValve).Nullify
 //@   requires valveOK(v)
 //@   ensures moved: ret0 == old(*v.rx) && ret1 == old(*v.tx) && *v.rx == 0 && *v.tx == 0
+//@   # each counter is fetched and zeroed in ONE atomic step (a load followed by a store would lose what is
+//@   # counted in between)
+//@   ensures oneAtomicSwapEach: calls("sync/atomic.SwapInt64") == 2
+//@   atcall StoreInt64 requires never: false
 //@   modifies *v.rx, *v.tx
 // the unlimited valve counts nothing and never waits
 //@ func (*UnlimitedValve).GetRx
